@@ -85,7 +85,9 @@ where
   let starts_like_identifier = |s: &String| !s.starts_with(|c: char| c.is_ascii_digit());
 
   if all_non_empty_and_unique(&simplified) && simplified.iter().all(starts_like_identifier) {
-    simplified
+    // A trimmed id can be a Rust keyword (`shape_type` => `type`): give it the same
+    // treatment the untrimmed ids already received.
+    simplified.iter().map(|s| to_rust_field_name(s)).collect()
   } else {
     to_owned()
   }
